@@ -106,12 +106,11 @@ def Ctr.suspend (cfg : Cfg) (w : Store) (c : Ctr) : Except Err (Store × Ctr) :=
 
 /-- `Container.suspend_container_tick` -/
 def Ctr.suspendTick (w : Store) (c : Ctr) : Except Err (Store × Ctr) :=
-  let c1 := { c with suspLeft := c.suspLeft - 1 }
-  if c1.suspLeft == 0 then
+  if c.suspLeft - 1 == 0 then
     match w.transAll pending c.unfinished with
     | .error e => .error e
-    | .ok w' => .ok (w', c1)
-  else .ok (w, c1)
+    | .ok w' => .ok (w', { c with suspLeft := c.suspLeft - 1 })
+  else .ok (w, { c with suspLeft := c.suspLeft - 1 })
 
 /-- the generator position of a fresh container -/
 def mkPos (w : Store) (ops : List Nat) : Pos :=
